@@ -278,9 +278,17 @@ def rule_exact_key(ctx: Ctx, out: Collector) -> None:
         out.bad('FS-3', cons, p.loc(m, n), f'the node id is interpolated into a glob pattern ({txt}): ids that are prefixes of each other '
                                            f'alias ("x" finds "x.y"), ids with glob metacharacters are never found again')
     # same file-name template in save and in the look-up
-    def templates(unit: FuncUnit) -> Set[str]:
+    def templates(unit: FuncUnit, depth: int = 0) -> Set[str]:
         out_ = set()
         in_raise = set()
+        if depth < 3:
+            # file names built by helpers of the store count for the caller
+            for c in ast.walk(unit.node):
+                if isinstance(c, ast.Call) and isinstance(c.func, ast.Attribute) and isinstance(c.func.value, ast.Name) \
+                        and c.func.value.id in ('self', 'cls', st.name):
+                    h = st.methods.get(c.func.attr)
+                    if h is not None and h is not unit and h.name not in ('save', 'load', '__init__'):
+                        out_ |= templates(h, depth + 1)
         for r in ast.walk(unit.node):
             if isinstance(r, ast.Raise):
                 for x in ast.walk(r):
@@ -290,7 +298,9 @@ def rule_exact_key(ctx: Ctx, out: Collector) -> None:
                 out_.add(_normalise_template(n))
         return out_
     save_t = templates(st.methods['save'])
-    look = [m for m in st.methods.values() if m.name not in ('save', 'load', '__init__') and 'node_id' in [a.arg for a in m.node.args.args]]
+    # the look-up: the helpers of the store that probe the file system for a node id
+    look = [m for m in st.methods.values() if m.name not in ('save', 'load', '__init__') and 'node_id' in [a.arg for a in m.node.args.args]
+            and any(isinstance(x, ast.Attribute) and x.attr in ('is_file', 'exists', 'glob', 'rglob', 'iterdir') for x in ast.walk(m.node))]
     look_t = set()
     for m in look:
         look_t |= templates(m)
